@@ -169,7 +169,7 @@ func crossingRoots(ctx *core.Ctx, ti int) {
 // c03: best match is never less specific than another eligible route; outcome independent of registration order.
 func c03(ctx *core.Ctx) {
 	quietLogs()
-	ctx.Rule("tables with distinct (method, template) pairs and distinct root shapes (CurlyRouter: variable and nested literal roots; RouterJSR311: literal roots). Plus pairs of CurlyRouter root paths over all literal/variable shapes of 1-5 segments, registered in both orders and probed with URLs both match. Oracle 1: the same table built under k registration permutations of services and routes must give every request the same outcome signature. Oracle 2: eligibility of a competing route/root is decided by the real code on a container holding only that route/service; the selected route (root) must not be dominated by an eligible one. Non-trivial = a request with >= 2 eligible routes or >= 2 matching roots; distinct by (router, level, selected shape, competitor shape).")
+	ctx.Rule("tables with distinct (method, template) pairs and distinct root shapes (CurlyRouter: variable and nested literal roots; RouterJSR311: literal roots). Plus pairs of CurlyRouter root paths over all literal/variable shapes of 1-5 segments, registered in both orders and probed with URLs both match. Oracle 1: the same table built under k registration permutations of services and routes must give every request the same outcome signature. Every second table also under a HISTORY order: one route per WebService (dynamic routes) is registered only after the container served the whole request list with a stand-in in its place. Oracle 2: eligibility of a competing route/root is decided by the real code on a container holding only that route/service (and, for routes, also by the executable reference of the route declaration when its answer is determinate); the selected route (root) must not be dominated by an eligible one. Non-trivial = a request with >= 2 eligible routes or >= 2 matching roots; distinct by (router, level, selected shape, competitor shape).")
 	ctx.Assume("excluded by the property: roots of the same literal/variable shape, same-method routes differing only in variable names",
 		"root-level choice is made visible by marker routes GET / and GET /{tail:*} added to every service (workload choice, no hook)")
 	tables := ctx.N(3000, 200000)
@@ -238,8 +238,59 @@ func c03(ctx *core.Ctx) {
 		marked := rt.Build(t, mbo)
 
 		rr := ctx.Rand(ti, "req")
+		reqs := make([]rt.Req, perTable)
+		for qi := range reqs {
+			reqs[qi] = rt.GenReq(rr, t, router)
+		}
+		// one more "registration order" is a history: on WebServices with dynamic routes one route of every service is
+		// registered last of all, after the container has already served the whole request list with a stand-in in its place
+		// (same number of routes) - the table is the same in the end, and so must every outcome be
+		if (ti/2)%2 == 1 { // both routers (the router follows the parity of ti)
+			hbo := rt.DefaultBuild(router)
+			hbo.Dynamic = true
+			hc, hws := rt.BuildWS(t, hbo)
+			type late struct {
+				ws *restful.WebService
+				rs *rt.RouteSpec
+			}
+			var lates []late
+			for si := range t.Svcs {
+				if hws[si] == nil || len(t.Svcs[si].Routes) == 0 {
+					continue
+				}
+				rs := &t.Svcs[si].Routes[r.Intn(len(t.Svcs[si].Routes))]
+				for _, lr := range hws[si].Routes() {
+					if id, ok := lr.Metadata["rid"].(int); ok && id == rs.ID {
+						if hws[si].RemoveRoute(lr.Path, lr.Method) == nil {
+							hws[si].Route(hws[si].Method(rs.Method).Path("/stand-in-for-a-late-route/{p}").To(func(*restful.Request, *restful.Response) {}))
+							lates = append(lates, late{hws[si], rs})
+						}
+						break
+					}
+				}
+			}
+			for qi := range reqs {
+				if _, clean := rt.Tokens(reqs[qi].Path); clean {
+					rt.Run(hc, rt.Dispatch, &reqs[qi])
+				}
+			}
+			for _, l := range lates {
+				for _, lr := range l.ws.Routes() {
+					if strings.HasSuffix(lr.Path, "/stand-in-for-a-late-route/{p}") {
+						l.ws.RemoveRoute(lr.Path, lr.Method)
+						break
+					}
+				}
+				rt.AddRoute(l.ws, l.rs, hbo)
+			}
+			if len(lates) > 0 {
+				conts = append(conts, hc)
+				perms = append(perms, fmt.Sprintf("history: %d route(s) registered after the request list had been served once with a stand-in in their place", len(lates)))
+				ctx.Count("history_built_orders", 1)
+			}
+		}
 		for qi := 0; qi < perTable; qi++ {
-			req := rt.GenReq(rr, t, router)
+			req := reqs[qi]
 			if _, clean := rt.Tokens(req.Path); !clean {
 				continue
 			}
@@ -278,6 +329,15 @@ func c03(ctx *core.Ctx) {
 					ao := rt.Run(c, rt.Dispatch, &req)
 					ctx.Eval(1)
 					if ao.RID() != o.ID {
+						// second opinion: the executable reference of the route declaration says the competitor admits this
+						// request (determinate match only) - then it is eligible whatever the real matcher thinks of it
+						if routeDominates(oFull, selFull) && o.Method == req.Method {
+							toks, _ := rt.Tokens(req.Path)
+							if m, _ := rt.MatchFull(oFull, toks); m == rt.Yes && rt.CTAdmitted(o, &req) && rt.AcceptSatisfiable(o, &req) && rt.CondsHold(o, &req) {
+								ctx.Violation(ti, "c03:route-specificity-by-reference:"+router, fmt.Sprintf("%s %q selected %s although the route %s, whose declaration admits the request, has a literal where it has a variable (a container holding only that route answers %s)", req.Method, req.Path, selFull, oFull, ao.Sig()),
+									caseDoc{Router: router, Entry: rt.Dispatch, Table: t, Req: req, Obs: ref, Want: fmt.Sprintf("route %d", o.ID)})
+							}
+						}
 						continue
 					}
 					eligible++
